@@ -63,7 +63,7 @@ def check_owned(run, rid, prog, cls, ctor, what):
                    loc=fn.loc(fn.node), sample={"data_arguments": [norm(e) for e in srcs]})
 
 
-def check_axis_lookup(run, rid, prog, floor=12):
+def check_axis_lookup(run, rid, prog, floor=20):
     """The index look-ups of ValueAxis (locate, nearest) and the construction of its points are translation covariant:
     affine typing (qv/affine.py) with the points of the axis (start, data[k], min, max, the value looked up) as points,
     the step as displacement and the length as a pure number.  `abs(val - k*step)` - the distance to the k-th point of an
@@ -72,13 +72,17 @@ def check_axis_lookup(run, rid, prog, floor=12):
     cls = prog.cls("quantarhei.core.valueaxis.ValueAxis")
     attrs = {"self.start": P, "self.data": P, "self.min": P, "self.max": P, "self.step": V, "self.length": S}
     n = 0
-    for nme, params in (("__init__", {"start": P, "length": S, "step": V}), ("locate", {"val": P}), ("nearest", {"val": P})):
+    for o_ in ("axis",):
+        attrs.update({o_ + ".start": P, o_ + ".data": P, o_ + ".min": P, o_ + ".max": P, o_ + ".step": V, o_ + ".length": S})
+    for nme, params in (("__init__", {"start": P, "length": S, "step": V}), ("locate", {"val": P}), ("nearest", {"val": P}),
+                        ("is_equal_to", {"axis": None}), ("is_extension_of", {"axis": None}), ("is_subsection_of", {"axis": None}),
+                        ("is_subset_of", {"axis": None})):
         f = cls.methods[nme]
         prog.consulted.add(f.relpath)
         names = [a.arg for a in f.node.args.args[1:]]
         if sorted(names) != sorted(params):
             raise AnalysisError("ValueAxis.%s: parameters %s, expected %s" % (nme, names, sorted(params)))
-        ty = AffineTyper(attrs, params)
+        ty = AffineTyper(attrs, {k: v for k, v in params.items() if v is not None})
         ty.block(f.node.body)
         n += ty.nchecked
         run.obligation(rid, f.short, not ty.errors, key="translation-covariant",
